@@ -308,3 +308,30 @@ PROPS["C03"] = dict(
             "twisted Edwards and bandersnatch scalar multiplication",
     assumptions=["module summaries of point operations", "Bits(SetBigInt(v)) = limbs of v mod r"],
 )
+
+MSM_CURVES = ["bn254", "bls12-377", "bls12-381", "bls24-315", "bls24-317", "bw6-633", "bw6-761"]
+
+def digit_harnesses():
+    hdr = "//verif:harness cutloop=partitionScalars$1 cut=carry"
+    return "\n".join("%s\nfunc H_Digits_C%d() { vDigits(%d) }" % (hdr, c, c) for c in range(4, 10))
+
+
+PROPS["C04"] = dict(
+    jobs=[Job("ecc/" + c, ["C04/digits.go.tmpl"], params=dict(Curve=c, DigitHarnesses=digit_harnesses()), jobs=8, skip_quick="H_Digits_C9") for c in MSM_CURVES] +
+         [Job("ecc/" + c, ["C04/chunks.go.tmpl"], params=dict(Curve=c, C=4), label=c + "#chunk") for c in MSM_CURVES] +
+         [Job("ecc/" + c, ["C04/msm_e2e.go.tmpl"], params=dict(Curve=c, MsmBits=10), label=c + "#e2e") for c in MSM_CURVES],
+    level_text="Bounded proof for G1 of the 7 MSM curves, by components: (1) signed-digit recoding of partitionScalars, one lemma "
+               "per chunk from an arbitrary incoming carry (cut at the loop head), for full-width scalars < r and every window size "
+               "c in 4..8 (9 in the thorough tier), plus the telescoping closing step for c in 4..16 and zero scalars; (2) the bucket "
+               "processor for one chunk with symbolic digits and (3) the Horner reduction over chunk totals in the free-module "
+               "interpretation; (4) MultiExp end to end for two points with symbolic 10-bit scalars through the sequential schedule "
+               "(semaphore path and default path), and its error reporting.",
+    level_note="Point operations are summarised by their module action (C02 proves the formulas); goroutines run to completion at "
+               "their spawn point, channels are FIFO queues, the semaphore is a token queue: ONE schedule. Independence of "
+               "GOMAXPROCS / interleavings and liveness under all schedules are outside this technique (DESIGN.md section 4).",
+    bounds="digits: scalars < r full width, c in 4..8 quick; chunk processor: 3 points, c = 4, every digit encoding; reduction: "
+           "4 chunks; end to end: n = 2, scalars < 2^10, NbTasks in {1, 8}, NumCPU = 4",
+    outside="schedules; window sizes 10..16 for the digit lemmas (statistics use floating point); batch-affine processor; "
+            "G2; Fold; recursive splitting; n > 2 end to end",
+    assumptions=["module summaries of point operations", "Bits() of a scalar are its regular-form limbs (C08)", "sequential schedule"],
+)
